@@ -58,4 +58,23 @@ theorem loadBytes_digit {n : Nat} {o : Order} {buf : List Nat} {i v : Nat} (hw :
       simp only [hlen]
   · rw [loadBytes_of_gt (by omega)] at hl; cases hl
 
+/-- Bit `p` of base-256 digit `j` of `v` is bit `8 j + p` of `v`. -/
+theorem digit_testBit (v j p : Nat) (hp : p < 8) :
+    (v / 256 ^ j % 256).testBit p = v.testBit (8 * j + p) := by
+  have h256 : (256 : Nat) = 2 ^ 8 := by decide
+  have hpow : (256 : Nat) ^ j = 2 ^ (8 * j) := by rw [h256, ← Nat.pow_mul]
+  rw [hpow, h256, Nat.testBit_mod_two_pow, ← Nat.shiftRight_eq_div_pow, Nat.testBit_shiftRight]
+  simp [hp]
+
+/-- Bit `k` of the value loaded for pixel `i` is bit `k % 8` of the byte at offset `k / 8`
+(little endian) resp. `n - 1 - k / 8` (big endian) of the pixel's `n` bytes. -/
+theorem loadBytes_testBit {n : Nat} {o : Order} {buf : List Nat} {i v : Nat} (hw : BytesOk buf)
+    (hl : loadBytes n o buf i = some v) {k : Nat} (hk : k < 8 * n) :
+    ∃ b, buf[i * n + (if o.alt then n - 1 - k / 8 else k / 8)]? = some b ∧
+      v.testBit k = b.testBit (k % 8) := by
+  refine ⟨_, loadBytes_digit hw hl (j := k / 8) (by omega), ?_⟩
+  rw [digit_testBit v (k / 8) (k % 8) (Nat.mod_lt _ (by decide))]
+  congr 1
+  omega
+
 end EG.Raw
